@@ -21,7 +21,7 @@ ASSUMPTIONS = [
     "routes are symmetric and all agents share one default route (what the format can express)",
     "one file / one string (multi-file loading is string concatenation and is outside)",
 ]
-BOUNDS = {"quick": "a hand-written agents section (global / per-agent default and specific hosting costs in both key orders, default and specific routes) loaded from a string, from one file (name as str or in a list) and from two files, and compared with what the text states; constraints: structures pair, chain-3, unary, ternary (domain 2, one job with domain 3), int and str domains, single-value domain, optional intentional constraint, initial value absent/first/last, with 2 plain agents; agents: 2 agents with every combination of capacity / symmetric route / default route / default and specific hosting cost",
+BOUNDS = {"quick": "a contiguous integer domain listed out of order; a hand-written agents section (global / per-agent default and specific hosting costs in both key orders, default and specific routes) loaded from a string, from one file (name as str or in a list) and from two files, and compared with what the text states; constraints: structures pair, chain-3, unary, ternary (domain 2, one job with domain 3), int and str domains, single-value domain, optional intentional constraint, initial value absent/first/last, with 2 plain agents; agents: 2 agents with every combination of capacity / symmetric route / default route / default and specific hosting cost",
           "thorough": "quick + triangle, 3 agents, pair with domain 3 and str values"}
 OUTSIDE = "the YAML text layer for all inputs, several files, cost-function variables, external 'source:' constraints, distribution hints"
 CAP_S = {"quick": 900, "thorough": 5400}
@@ -77,6 +77,8 @@ def jobs(tier):
     out.append({"name": "pair-shifted-domains", "spec": spec("pair", "min", domain_values={"y": [1, 2]}),
                 "agents": 1})
     # str values that differ only by letter case
+    # a contiguous integer domain listed out of order (the order of the values is part of the domain)
+    out.append({"name": "pair-unsorted-domain", "spec": spec("pair", "min", dom={"x": 3, "y": 2}, domain_values={"x": [2, 0, 1]}), "agents": 1})
     out.append({"name": "pair-case-domain", "spec": spec("pair", "min", domain_kind="str", domain_values={"x": ["a", "A"]}),
                 "agents": 1})
     out.append({"name": "agents-only", "spec": spec("unary", "min"), "agents": 2, "agents_focus": True})
